@@ -89,6 +89,11 @@ Problem(m, kind, s, p, repaired) ==
    ELSE IF repaired THEN [ok |-> TRUE, e |-> Entry(kind, 0, FALSE)]
    ELSE [ok |-> FALSE, e |-> Entry(kind, 0, FALSE)]
 
+\* which variant of _make_problem_description_for the code under test has: FALSE = as found (dereferences None),
+\* TRUE = after the repair `(scenario.error_message or u"").strip()`.  Only the predictions (design-level Emit, DIVERGE
+\* lines of the trace judge) depend on it, no clause does.
+RepairedCode == FALSE
+
 Report0 == [tests |-> 0, errors |-> 0, failed |-> 0, skipped |-> 0, cases |-> <<>>, crashed |-> FALSE, at |-> 0]
 Case(s, st, entries) == [el |-> s, status |-> st, entries |-> entries]
 
